@@ -330,7 +330,8 @@ class Run(object):
 
     def write_replay(self, kind, case, impl, model, failures, extra=None):
         os.makedirs(os.path.join(VERIF, 'replays'), exist_ok=True)
-        path = os.path.join(VERIF, 'replays', '%s-%s-seed%d-%d.json' % (self.prop.ID, self.tier, self.seed, len(self.violations)))
+        tag = '' if os.path.realpath(REPO) == '/repo' else '-' + os.path.basename(os.path.realpath(REPO))
+        path = os.path.join(VERIF, 'replays', '%s-%s-seed%d%s-%d.json' % (self.prop.ID, self.tier, self.seed, tag, len(self.violations)))
         doc = {'property': self.prop.ID, 'seed': self.seed, 'tier': self.tier, 'kind': kind,
                'case': {k: v for k, v in case.items() if not k.startswith('_')} if isinstance(case, dict) else case,
                'driver_requests': self.prop.model_requests(case),
@@ -450,8 +451,10 @@ class Run(object):
             'wall_s': round(wall, 2),
             'violations': max(self.violation_count, len(self.violations)),
         }
-        os.makedirs(os.path.join(VERIF, 'evidence'), exist_ok=True)
-        with open(os.path.join(VERIF, 'evidence', prop.ID + '.json'), 'w') as f:
+        # evidence describes /repo itself; a run against a scratch copy (VERIF_REPO, mutation testing) keeps its own
+        evdir = os.path.join(VERIF, 'evidence') if os.path.realpath(REPO) == '/repo' else os.path.join(VERIF, 'replays', 'scratch-evidence')
+        os.makedirs(evdir, exist_ok=True)
+        with open(os.path.join(evdir, prop.ID + '.json'), 'w') as f:
             json.dump(ev, f, indent=1, sort_keys=True, default=repr)
         kfs = {f['id']: f for f in load_known_findings() if f['property'] == prop.ID}
         for kid in sorted(self.known_hits):
